@@ -86,6 +86,11 @@ func (w *world) entries(es []refmodel.CRLEntry) []pki.CRLEntry {
 			t = sims.SigningTime
 		case "after":
 			t = sims.SigningTime.Add(time.Hour)
+			if e.T != 2 {
+				// later than the signing time AND later than any wall clock this
+				// check will ever run under
+				t = time.Date(2095, 1, 1, 0, 0, 0, 0, time.UTC)
+			}
 		}
 		if e.Inv != "none" {
 			pe.Invalidity = &t
@@ -243,7 +248,7 @@ func splits(list []refmodel.CRLEntry, yield func(Case)) {
 }
 
 func run(r *core.Run) int {
-	r.Rule = "base/delta entry lists over {matching, other serial} x reason x 3 revocation times x invalidity date {none,before,equal,after signing time} x unknown-critical flag, every base/delta split, signing time zero and non-zero; " +
+	r.Rule = "base/delta entry lists over {matching, other serial} x reason x 3 revocation times x invalidity date {none, before, equal, after the signing time (an hour / seven decades after)} x unknown-critical flag, every base/delta split, signing time zero and non-zero; " +
 		"non-trivial = at least one entry matches the certificate's serial; distinct by full case descriptor"
 	r.Assume("CRLs are authentic and current by construction (nextUpdate 2096), as the statement presupposes")
 	r.Assume("a hold and a remove entry with the same (latest) revocation time admit both outcomes")
